@@ -73,6 +73,38 @@ class NP:
     def copyto(dst, src, casting='same_kind', where=True):
         dst[...] = src
 
+    @staticmethod
+    def asarray(a, dtype=None, **kw):
+        """no copy when the dtype already matches: the array itself if it is a plain ndarray, a base-class VIEW of the same
+        memory (another object) if it is an instance of an ndarray subclass (np.memmap, np.matrix, user subclasses)"""
+        if not isinstance(a, ND):
+            raise symex.Unsupported('asarray of %s' % type(a).__name__)
+        if dtype is None or dtype == a.dtype:
+            if getattr(a, 'is_subclass', False):
+                return a[...] if a.ndim else a
+            return a
+        return a.astype(dtype)
+
+    @staticmethod
+    def asanyarray(a, dtype=None, **kw):
+        if dtype is None or dtype == a.dtype:
+            return a
+        return a.astype(dtype)
+
+    @staticmethod
+    def ascontiguousarray(a, dtype=None, **kw):
+        return NP.asarray(a, dtype)
+
+    @staticmethod
+    def array(a, dtype=None, copy=True, **kw):
+        if copy is False:          # NumPy 2: never copy, error if a copy would be needed
+            if dtype is None or dtype == a.dtype:
+                return NP.asarray(a, dtype)
+            raise ValueError('Unable to avoid copy while creating an array as requested.')
+        if copy is None:
+            return NP.asarray(a, dtype)
+        return a.astype(dtype if dtype is not None else a.dtype)
+
 
 def _shape_len(shape):
     return 1
@@ -87,9 +119,10 @@ def load_pre():
     return loader.load_unit('pre', dict(np=NP, float=symex.float_type, len=lambda a: (1 if isinstance(a, tuple) and len(a) == 1 else slen(a))), name='pre_under_test')
 
 
-def sig(N, dtype, readonly):
+def sig(N, dtype, readonly, subclass=False):
     a = ND.fresh((N,), lambda idx: x(idx[0]), dtype)
     a.store.readonly = readonly
+    a.is_subclass = subclass
     return a
 
 
@@ -99,6 +132,10 @@ def configs(tier, seed):
         for inp in (False, True):
             cfgs.append(dict(kind='preemph', name='preemphasize %s in_place=%s' % (dt, inp), dt=dt, in_place=inp))
             cfgs.append(dict(kind='dither', name='dither %s in_place=%s' % (dt, inp), dt=dt, in_place=inp))
+    for kind in ('preemph', 'dither'):
+        # the signal is an instance of an ndarray subclass (np.memmap, a user subclass): no-copy conversions hand back
+        # another object on the same memory
+        cfgs.append(dict(kind=kind, name='%s f8 in_place=False, ndarray subclass instance' % kind, dt='f8', in_place=False, subclass=True))
     shapes = [(2, 3), (3, 2, 2), (2, 2, 3), (2, 3, 2, 2)] if tier == 'quick' else [(2, 3), (3, 2), (3, 2, 2), (2, 2, 3), (2, 3, 2), (4, 4, 4), (2, 3, 2, 2), (2, 2, 2, 3)]
     for shp in shapes:
         cfgs.append(dict(kind='preemph_axis', name='preemphasize along every axis of %s' % (shp,), shape=list(shp)))
@@ -128,7 +165,7 @@ def run_np(cfg):
             c.assume(co >= 0)
         Rand.calls = []
         allowed_write = in_place and dt == 'f8'
-        a = sig(conc(SInt(N)), dt, readonly=not allowed_write)
+        a = sig(conc(SInt(N)), dt, readonly=not allowed_write, subclass=bool(cfg.get('subclass')))
         try:
             obj = ns['Preemphasize' if kind == 'preemph' else 'Dither'](SReal(co))
             out = obj.apply(a, in_place=in_place)
@@ -174,7 +211,7 @@ def run_np(cfg):
         if res is None:
             continue
         ob += 1
-        base = dict(kind=kind, dt=dt, in_place=in_place)
+        base = dict(kind=kind, dt=dt, in_place=in_place, subclass=bool(cfg.get('subclass')))
         if res[0] == 'exception':
             m = ctx.model()
             viol.append(dict(base, what='exception ' + res[1], N=m.eval(z3.Int('N'), True).as_long(), coeff=str(m.eval(z3.Real('coeff'), True))))
@@ -464,7 +501,11 @@ def replay(w):
         for co in coeffs:
             xs = base.astype(dt)
             orig = xs.copy()
-            if w['in_place'] is False:
+            if w.get('subclass'):
+                class _Sub(np.ndarray):
+                    pass
+                xs = xs.view(_Sub)          # writable on purpose: a silent write into the caller's memory must show
+            elif w['in_place'] is False:
                 xs.setflags(write=False)
             try:
                 if k == 'preemph':
@@ -485,7 +526,7 @@ def replay(w):
                 return {'reproduced': True, 'detail': '%s dtype=%s N=%d coeff=%r in_place=%s: result differs from float64 computation cast back (first diff at %s)'
                         % (k, w['dt'], N, co, w['in_place'], np.argwhere(got != want)[:1].tolist() if got.shape == want.shape else 'shape')}
             if not (w['in_place'] and dt == np.float64) and not np.array_equal(xs, orig):
-                return {'reproduced': True, 'detail': 'input modified'}
+                return {'reproduced': True, 'detail': '%s in_place=%s: input (%s) modified' % (k, w['in_place'], 'ndarray subclass instance' if w.get('subclass') else 'plain ndarray')}
             # two calls on one object: the first result must keep its values and its own memory
             obj = Preemphasize(co) if k == 'preemph' else Dither(max(co, 0.0))
             x1, x2 = (rng.randn(N) * 50).astype(dt), (rng.randn(N) * 50).astype(dt)
